@@ -274,6 +274,8 @@ def fuzz_stage(pid, ctx, cases):
     a coverage-guided fuzzer over the implementation under test the generator; whatever it finds is run through the
     ordinary correspondence (and, for message-level properties, compared with the proved model)."""
     import fuzz_ops
+    if os.environ.get("VERIF_NO_DELTA"):          # used by the seeded regression to see what the ordinary generators find alone
+        return None
     changed, lits = fuzz_ops.source_delta(core.REPO)
     if not changed and os.environ.get("VERIF_FORCE_DELTA"):
         changed = {"(forced)": []}          # self-test of the stage on an unchanged tree
